@@ -442,7 +442,7 @@ def run(ctx, spec):
         ctx.note(f"shipped {spec['set']} len{spec['N']}: verified up to length {min(spec['N'], spec['maxlen'])}")
         ctx.sample({"shipped_set": spec["set"], "N": spec["N"], "verified_to": min(spec["N"], spec["maxlen"])})
         return
-    names = ["x", "data", "x_y", "set.v2"]
+    names = ["x", "data", "x_y", "set.v2", "goodsort", "badsort", "a.good.b", "good_bad", "len3", "x.json"]
     for _ in range(spec["files"]):
         ops = []
         for _ in range(rng.randint(3, 12)):
